@@ -487,7 +487,7 @@ def sample_repr(case, obs):
 
 # ------------------------------------------------------------------ generators
 VALID = ['debug', 'comlog', 'info', 'warning', 'error', 'off']
-LEVEL_POOL = (VALID * 6 + ['DEBUG', 'Info', 'OFF', 'Comlog', 'WARNING', 'eRRor']
+LEVEL_POOL = (VALID * 12 + ['DEBUG', 'Info', 'OFF', 'Comlog', 'WARNING', 'eRRor']
               + ['foo', '', 'critical', 'warn', 'fatal', 'débug', 'inf', 'of', 'off ', '99', '10']
               + [10, 15, 20, 30, 40, 99, 0, 1, 25, 50, -1, 100]
               + [20.0, 99.0, 15.5, None, True, False, [10], {'a': 1}, ['debug']])
@@ -503,13 +503,14 @@ def sweep(mods):
 def rand_route(rng):
     mods = rng.sample(MOD_POOL, rng.randint(1, 3))
     nconn = rng.randint(1, 3)
-    specs = mods * 3 + ['', '.', None, '.', ''] + ['nomod', '..', ' ', mods[0] + ':value', mods[0].upper() + 'Z']
+    good_specs = mods * 3 + ['', '.', None, '.', '']
+    bad_specs = ['nomod', '..', ' ', mods[0] + ':value', mods[0].upper() + 'Z']
     ops = []
     for _ in range(rng.randint(3, 14)):
         r = rng.random()
         c = rng.randrange(nconn)
         if r < 0.42:
-            ops.append(['log', c, rng.choice(specs), rng.choice(LEVEL_POOL)])
+            ops.append(['log', c, rng.choice(bad_specs if rng.random() < 0.07 else good_specs), rng.choice(LEVEL_POOL)])
         elif r < 0.82:
             ops.append(['emit', rng.choice(mods), rng.choice(EMIT_LEVELS)])
         elif r < 0.91:
